@@ -503,10 +503,48 @@ func genC10(r *rand.Rand, t *Trace, thorough bool) {
 					}
 					c.N(nm)
 				})
-				s.st = saved
 				ops = append(ops, s.ops[len0:]...)
 				s.ops = s.ops[:len0]
-				st2.Close()
+				ce := st2.Close()
+				ops = append(ops, func(c *Case) { c.N(8).N(errCodeStore(ce)) })
+				// ... and after one more restart: whatever the first session did with the leftovers of the crash,
+				// the identifiers they carried stay spent
+				lst3 := dirListingStates(idir, brokenState)
+				st3, e3 := cfg2.open()
+				code3 := 0
+				if e3 != nil {
+					code3 = 1
+				}
+				ops = append(ops, func(c *Case) {
+					c.N(9).N(0).N(len(lst3))
+					for _, l := range lst3 {
+						c.N(l[0]).N(l[1]).N(l[2]).N(l[3]).N(l[4])
+					}
+					c.N(code3)
+				})
+				if e3 == nil {
+					if f := cfg2.trainOp(); f != nil {
+						ops = append(ops, f)
+					}
+					s.st = st3
+					s.add()
+					s.rotate()
+					s.flush()
+					ids3, cached3 := st3.VerifSegmentIDs()
+					nm3 := st3.VerifMemtableCount()
+					s.ops = append(s.ops, func(c *Case) {
+						c.N(10).N(len(ids3))
+						for i := range ids3 {
+							c.U(ids3[i]).B(cached3[i])
+						}
+						c.N(nm3)
+					})
+					ops = append(ops, s.ops[len0:]...)
+					s.ops = s.ops[:len0]
+					st3.Close()
+					t.Stat("crash.second_restart")
+				}
+				s.st = saved
 			}
 			c.N(len(ops))
 			for _, f := range ops {
